@@ -63,7 +63,7 @@ CHECKS = {
  "C03": dict(
    category="exploration",
    technique="bounded exhaustive enumeration of the expression grammar on the real CodeBuilder; oracle = go/types' own type of every emitted sub-expression (types.Eval, no context conversion) and Info.Defs of declared objects",
-   text="For every accepted, well-typed program of the C01 expression space in 10 value-flow uses, every IR sub-expression is paired with the emitted syntax and the type recorded when the builder pushed it must equal the type go/types gives that syntax evaluated on its own (typed: identical; untyped: same kind); every declared object's builder-scope type must equal go/types' Info.Defs type; Recorder.Member objects must be the selected objects. Deviations pinned in known/C03.<tier>.tsv.",
+   text="Also every constant declaration group of 1..4 (5 thorough) specs over {typed, untyped, implicit repetition} with iota (6.5k groups): the scope type of every constant equals go/types'. For every accepted, well-typed program of the C01 expression space in 10 value-flow uses, every IR sub-expression is paired with the emitted syntax and the type recorded when the builder pushed it must equal the type go/types gives that syntax evaluated on its own (typed: identical; untyped: same kind); every declared object's builder-scope type must equal go/types' Info.Defs type; Recorder.Member objects must be the selected objects. Deviations pinned in known/C03.<tier>.tsv.",
    note="Trusted: go/types 1.23.5; parallel IR/syntax traversal; programs the builder accepts but go/types rejects are C01's business and skipped here.",
    design="§4 C03"),
  "C02": dict(
@@ -81,7 +81,7 @@ CHECKS = {
  "C08": dict(
    category="exploration",
    technique="bounded exhaustive enumeration of struct/method type graphs x selectors x operand forms on the real Member/MemberRef code; oracle = go/types Selections on a reference program and on the emitted text",
-   text="85k type graphs (quick; all ~620k thorough) over four local structs and an imported struct with unexported members (value/pointer embedding, colliding names at equal and different depths, value/pointer receivers), 6 selector names x 9 operand forms each (4.6M lookups): acceptance, member kind, reported type, Recorder.Member object owner and the member the emitted text selects must coincide with go/types. Deviations pinned per (kind|form|selector|embedding skeleton) with counts.",
+   text="85k type graphs (quick; all ~1M thorough) over four local structs, an imported struct with unexported members and an imported struct that promotes an exported field and method through an unexported embedded type (value/pointer embedding, colliding names at equal and different depths, value/pointer receivers), 6-9 selector names x 9 operand forms each (4.6M lookups): acceptance, member kind, reported type, Recorder.Member object owner and the member the emitted text selects must coincide with go/types. Deviations pinned per (kind|form|selector|embedding skeleton) with counts.",
    note="Trusted: go/types 1.23.5 lookup; member identity across universes by owner type name + member name + type.",
    design="§4 C08"),
  "C09": dict(
@@ -93,13 +93,13 @@ CHECKS = {
  "C15": dict(
    category="model_checking",
    technique="choice-point DFS (deviation-bounded, with replay) over the iteration order of every map range the library executes, via a mechanical source rewrite in the build overlay; oracle = byte equality with the default-order execution + a second-process digest",
-   text="For 5 histories (imports in two files, XGo dependency marker, overload families/methods/named types, labels, builtin tables) every permutation of every reached map range (all n! for n<=4 quick / n<=8 thorough) is explored with up to 2 (3) simultaneous deviations; every execution's files and error multiset must equal the baseline; baseline digests are recomputed in a second process. The rewrite is regenerated from /repo on every run, so new map ranges are picked up automatically (listed in evidence).",
+   text="For 6 histories (imports in two files, five blank imports made in three ways next to named ones, XGo dependency marker, overload families/methods/named types, labels, builtin tables) every permutation of every reached map range (all n! for n<=4 quick / n<=8 thorough) is explored with up to 2 (3) simultaneous deviations; every execution's files and error multiset must equal the baseline; baseline digests are recomputed in a second process. The rewrite is regenerated from /repo on every run, so new map ranges are picked up automatically (listed in evidence).",
    note="Trusted: the overlay rewrite (every explored order is a legal Go iteration order); absence of other nondeterminism sources on output paths.",
    design="§4 C15"),
  "C06": dict(
    category="exploration",
    technique="bounded exhaustive enumeration of overload families (generated fixture packages) x argument lists on the real candidate loop; oracle = go/types applicability of each candidate on reference text, emitted callee/arguments",
-   text="All ordered selections of 1..3 distinct parameter shapes out of 15 as package functions (3k families), 1..2 (3 thorough) out of 13 as value-receiver methods, pointer-receiver methods and interface methods, x 94 argument lists (0-2 arguments over 9 atoms incl. nil, a generic function value, a spread and a tuple call): 325k calls. The builder must pick the lowest-indexed candidate go/types accepts (emitted callee name, Recorder.Call object), reject when none applies, emit the arguments unchanged (no residue), report the candidate's result type; the emitted package must type-check.",
+   text="All ordered selections of 1..3 distinct parameter shapes out of 19 (plain Go types, variadics, function types, a named type with an implicit W_Init conversion, two generic shapes) as package functions (7k families), 1..2 (3 thorough) out of 17 as value-receiver methods, pointer-receiver methods and interface methods, x 94 argument lists (0-2 arguments over 9 atoms incl. nil, a generic function value, a spread and a tuple call): 662k calls. The builder must pick the lowest-indexed candidate go/types accepts (emitted callee name, Recorder.Call object), reject when none applies, emit the arguments unchanged (no residue), report the candidate's result type; the emitted package must type-check.",
    note="Trusted: go/types 1.23.5 call rules. Not covered: overloaded named types (_Cast) and overloaded operators, whose meaning is not plain Go (no go/types reference); stated in DESIGN.md.",
    design="§4 C06"),
  "C07": dict(
